@@ -104,7 +104,10 @@ def tlc(module, cfg, workers=1, env=None, timeout=600, xmx="4g", extra=(), metat
     os.makedirs(os.path.join(OUT, "tlc"), exist_ok=True)
     tag = metatag or f"{module}-{os.getpid()}-{int(time.time()*1000) % 100000000}"
     meta = os.path.join(OUT, "tlc", tag)
-    e = {"JAVA_TOOL_OPTIONS": f"-Xmx{xmx} " + (env or {}).pop("JAVA_TOOL_OPTIONS", "")} if True else {}
+    # TLC leaves an empty directory in java.io.tmpdir per run: keep them under out/ (removed below)
+    jtmp = os.path.join(OUT, "tlc", tag + ".tmp")
+    os.makedirs(jtmp, exist_ok=True)
+    e = {"JAVA_TOOL_OPTIONS": f"-Xmx{xmx} -Djava.io.tmpdir={jtmp} " + (env or {}).pop("JAVA_TOOL_OPTIONS", "")}
     if env:
         e.update(env)
     cmd = ["timeout", str(timeout), "tlc", "-workers", str(workers), "-metadir", meta, "-cleanup",
@@ -115,6 +118,7 @@ def tlc(module, cfg, workers=1, env=None, timeout=600, xmx="4g", extra=(), metat
     t0 = time.time()
     p = run(cmd, cwd=SPEC, env=e, timeout=timeout + 30)
     shutil.rmtree(meta, ignore_errors=True)
+    shutil.rmtree(jtmp, ignore_errors=True)
     r = TlcResult(p.stdout, p.returncode, time.time() - t0)
     if p.returncode == 124:
         raise ToolError(f"TLC timed out after {timeout}s on {module}/{cfg}")
